@@ -250,7 +250,7 @@ PROPS = {
                 dict(module="MC_Booth", about="sm9_u256_get_booth on toy limbs: every scalar reconstructs, digits in range, top digit non-negative"),
                 dict(module="MC_Mont", about="register-level Montgomery mul / add / sub with R = 2^7")],
         stages=[dict(suite="sm9arith", trace="TraceSM9", timeout=3400,
-                     required_classes={"both": ["tower.op/fp2.inv.z0x", "tower.op/fp2.mul.zxx", "tower.op/fp4.inv.z0x0x", "tower.op/fp12.mul.mfff", "modn.op/modn.mul.near-modulus",
+                     required_classes={"both": ["gt.pow/gt.pow.fp12.sparse", "gt.pow/gt.pow.fp12.e=N-2", "tower.op/fp2.inv.z0x", "tower.op/fp2.mul.zxx", "tower.op/fp4.inv.z0x0x", "tower.op/fp12.mul.mfff", "modn.op/modn.mul.near-modulus",
                                                 "g1.op/g1.add.P=Q.jac-jac", "g1.op/g1.add.P=-Q.jac-jac", "g2.op/g2.add.P=Q.jac-jac", "g2.op/g2.equals.P=-Q.jac-jac", "g2.op/g2.add.generic.affine-jac",
                                                 "booth/booth.w5.recode", "booth/booth.w7.recode", "g1.table/table.entry", "g1.table/table.row-base"]})],
         assumptions=["BN.tla: Fp12 as the polynomial ring Fp[w]/(w^12+2); tower elements are judged through the embedding u = w^6, v = w^3"],
